@@ -74,6 +74,8 @@ def specs(tier):
         add(f, [F], F + "." + f, (lambda: ([symarr("x", (2, 3), cplx=True), var("d")], {}, [z3.Real("d") > 0])), batch="first")
     for f in ("ft2", "ift2"):
         add(f, [F], F + "." + f, (lambda: ([symarr("x", (2, 2, 2), cplx=True), var("d")], {}, [z3.Real("d") > 0])), batch="first")
+    add("rft stack of 3", [F], F + ".rft", (lambda: ([symarr("x", (3, 4)), var("d")], {}, [z3.Real("d") > 0])), batch="first")
+    add("ft stack of 3", [F], F + ".ft", (lambda: ([symarr("x", (3, 2), cplx=True), var("d")], {}, [z3.Real("d") > 0])), batch="first")
     for f in ("rft", "irft", "rft2", "irft2"):
         add(f, [F], F + "." + f, (lambda f=f: ([symarr("x", (2, 4) if "2" not in f else (4, 4) if f == "rft2" else (4, 3), cplx=f.startswith("i")), var("d")], {}, [z3.Real("d") > 0])))
     O = "opticalpropagation"
@@ -289,7 +291,17 @@ def replay_spec(name, values):
     poison(r1)
     r3 = fn(*deep_copy(args), **deep_copy(kwargs))
     diff = not _res_close(r2, r3) or not _res_close(r1c, r2)
-    return bool(changed or diff or alias), dict(what="%s: arguments modified=%s, repeated call differs=%s, results share storage=%s" % (name, changed, diff, alias),
+    batch_bad = False
+    if sp.get("batch") == "first" and isinstance(args[0], numpy.ndarray):
+        full = flat_result(fn(*deep_copy(args), **deep_copy(kwargs)))
+        for f in range(args[0].shape[0]):
+            one = flat_result(fn(args[0][f].copy(), *deep_copy(args[1:]), **deep_copy(kwargs)))
+            for x, y in zip(full, one):
+                x, y = numpy.asarray(x), numpy.asarray(y)
+                item = x[:, f] if name == "quadCell" else (x[f] if x.shape[1:] == y.shape else None)
+                if item is None or not numpy.allclose(item, y, rtol=1e-10, atol=1e-12):
+                    batch_bad = True
+    return bool(changed or diff or alias or batch_bad), dict(what="%s: arguments modified=%s, repeated call differs=%s, results share storage=%s, stack differs from per-item calls=%s" % (name, changed, diff, alias, batch_bad),
                                                 arguments=[numpy.asarray(a).tolist() if isinstance(a, numpy.ndarray) else repr(a) for a in args])
 
 
